@@ -23,7 +23,8 @@ L = {'op': 'loop'}
 # (failed/ERR, failed/SIGTERM ...) or as an abort (aborted/<reason>)
 RECEIVED_TEXTS = ['submitted', 'started', 'succeeded', 'failed', 'failed/ERR', 'aborted/by the job script',
                   'submission failed', 'xx', 'hello']
-POLLED_TEXTS = ['submitted', 'started', 'succeeded', 'failed', 'failed/SIGKILL', 'submission failed', 'xx']
+POLLED_TEXTS = ['submitted', 'started', 'succeeded', 'failed', 'failed/SIGKILL', 'submission failed', 'xx',
+                'vacated/SIGUSR1']
 
 
 def comp_flow(n: int, retries: str) -> str:
@@ -165,7 +166,7 @@ def probe_op(i, pr):
     return _poll(i, payload, sn)
 
 
-CHUNK = 9      # N_CORE = 18 = two chunks
+CHUNK = 10     # N_CORE = 19: the first two chunks
 
 
 def comp_case(prefix, retries, chunk, second=None):
@@ -200,7 +201,7 @@ def comp_cases(tier, rng):
     if tier == 'quick':
         # every state with every message kind / flag of the current submit number in every run (the core chunks),
         # plus one seeded chunk of the variants per state (thorough runs them all)
-        core = N_CORE // CHUNK
+        core = -(-N_CORE // CHUNK)
         pick = {p: (core + rng.randrange(max(1, n_chunks(p) - core))) for p, _r in PREFIXES}
         cases = [c for c in cases
                  if n_chunks(c['id'].split('-')[1]) == 1 or int(c['id'].split('-c')[-1]) < core or
@@ -212,7 +213,7 @@ def comp_cases(tier, rng):
     return cases
 
 
-GEN_OPTS = {'polls': True, 'noise': 0.35, 'p_poll_late': 0.0, 'fail_signals': True, 'p_lose': 0.12}
+GEN_OPTS = {'polls': True, 'noise': 0.35, 'p_poll_late': 0.0, 'fail_signals': True, 'p_lose': 0.12, 'p_vacate': 0.1}
 
 
 class MsgProp(SchedProp):
@@ -223,9 +224,11 @@ class MsgProp(SchedProp):
     gen_opts = GEN_OPTS
     exhaustive = False
     unmodelled = SchedProp.unmodelled + [
-        'clock-expiry (status expired), job vacation / signals in messages (failed/XCPU ...), forced (cylc set) '
-        'messages: not generated; execution/submission polling timers: a poll result is an explicit op '
-        '(truthful about the job, possibly delivered late)',
+        'clock-expiry (status expired) and forced (cylc set) messages: not generated; run-signal suffixes on messages '
+        'other than failed / aborted / vacated (e.g. succeeded/x, started/x: the output is completed without the status '
+        'change) and RECEIVED vacation messages (the frozen Sched queue path takes message texts literally; vacation is '
+        'modelled for messages found by a poll): not generated; execution/submission polling timers: a poll result is an '
+        'explicit op (truthful about the job, possibly delivered late)',
     ]
     trusted = [
         'the runner instrumentation: wrappers around TaskProxy.state_reset and TaskEventsManager.process_message '
@@ -234,6 +237,21 @@ class MsgProp(SchedProp):
 
     def corpus(self):
         return []
+
+    def impl_batch(self, inputs):
+        # on a heavily loaded machine the scheduler's start-up can time out (threading.BrokenBarrierError of the
+        # server thread, asyncio timeouts): such load-stage failures say nothing about the workflow - run them again
+        raw = super().impl_batch(inputs)
+        for _attempt in range(3):
+            again = [k for k, r in enumerate(raw) if r.get('stage') == 'load' and (
+                inputs[k].get('kind') in ('comp', 'witness') or
+                any(t in r.get('error', '') for t in ('BrokenBarrierError', 'TimeoutError', 'CancelledError')))]
+            if not again:
+                break
+            redo = super().impl_batch([inputs[k] for k in again])
+            for k, r in zip(again, redo):
+                raw[k] = r
+        return raw
 
     def skip_case(self, inp, raw):
         # generated flow.cylc files that cylc rejects at load time are skipped (SchedProp); the fixed workflows of
@@ -301,6 +319,7 @@ class C09(MsgProp):
         'CylcModel.C09.outputs_monotone_pooled',
         'CylcModel.C09.implied_outputs_run',
         'CylcModel.C09.lifecycle_run',
+        'CylcModel.C09.vacation_step',
     ]
     statement_note = (
         'partial proof. Component (Msg.step = TaskEventsManager.process_message on one task proxy: output completion, '
@@ -336,16 +355,21 @@ class C09(MsgProp):
         'releaseAndSubmit on queued proxies; that queued proxies are waiting is not proved as an invariant); expiry is '
         'not modelled. The frozen Sched model has no poll-result op: Msg.XOp / stepX / runX add it (dispatch by current '
         'submit number, then processMessage with the polled flag; runX_base: conservative); forced (cylc set) messages '
-        'and commands are not modelled')
+        'and commands are not modelled. Run signals: Msg.canon models split_run_signal (failed/<SIGNAL> and '
+        'aborted/<reason> are the message failed; checked by decide on examples); job vacation (vacated/<SIGNAL> found by '
+        'a poll) is Msg.vacateProxy in stepX: vacation_step - outputs, identity and submit number untouched, status '
+        'unchanged or back to submitted (the designed step back, finding job-vacated), consistency kept when the job had '
+        'been submitted; implied_outputs_run and lifecycle_run are stated for op lists without vacation messages '
+        '(outputs_monotone_run covers them too)')
     technique = ('case analysis over the message step function, simulation of Sched.processMessage by it, inductive '
                  'invariants over delivery lists + enumerated and generated trace correspondence with the real Scheduler')
     rule = ('component enumeration: 19 reachable message states (status x outputs x try state, incl. second tries and '
             'started-before-submitted) x up to 39 probes (internal submit results, received messages of the same / older / '
             'newer submit number for 9 message kinds incl. failures with a run signal (failed/ERR, aborted/...), polled '
-            'results incl. signal kills and those of the previous job; the 18 current-job probes run in every tier), one probe per task '
+            'results incl. signal kills, a job vacation and those of the previous job; the 19 current-job probes run in every tier), one probe per task '
             'instance of a one-cycle workflow in the real scheduler (thorough: pairs of probes); plus generated workflows '
             'under the seeded adaptive schedule with duplicate/stale/out-of-order/lost messages, failures reported with run '
-            'signals, answered and routine polls '
+            'signals, job vacations, answered and routine polls '
             '(a quarter with late poll results); non-trivial = distinct (state, retry variant, chunk) or (kind, polled, '
             'stale, backward, retry, size) class per distinct case')
 
